@@ -35,7 +35,9 @@ def stepOf? : Term → Option Step
   | .list [.atom "snap"] => some .snap
   | .list [.atom "start", s] => (natLe? 250 s).map .start
   | .list [.atom "send", s, n] => do pure (.send (← natLe? 250 s) (← natLe? 1048576 n))
+  | .list [.atom "sendq", s, n] => do pure (.send (← natLe? 250 s) (← natLe? 1048576 n))
   | .list [.atom "soft", s] => (natLe? 250 s).map .soft
+  | .list [.atom "wfail", s] => (natLe? 250 s).map .wfail
   | .list [.atom "end", s, .atom "eof"] => (natLe? 250 s).map (fun s => .close s true)
   | .list [.atom "end", s, .atom "cancel"] => (natLe? 250 s).map (fun s => .close s false)
   | _ => none
@@ -51,19 +53,33 @@ def stepsOK (sids : List Nat) : List Nat → List Step → Bool
   | started, .start s :: rest => sids.contains s && !started.contains s && stepsOK sids (s :: started) rest
   | started, .send s _ :: rest => started.contains s && stepsOK sids started rest
   | started, .soft s :: rest => started.contains s && stepsOK sids started rest
+  | started, .wfail s :: rest => started.contains s && stepsOK sids started rest
   | started, .close s _ :: rest => started.contains s && stepsOK sids started rest
+
+/-- `(sendq S N)` (bytes queued without running the client) must be followed at once by
+    `(end S eof)`: the client then reads them and the end of stream in one go -/
+def sendqOK : List Term → Bool
+  | [] => true
+  | .list [.atom "sendq", s, _] :: nxt :: rest =>
+      (match nxt with
+       | .list [.atom "end", s', .atom "eof"] => s == s'
+       | _ => false) && sendqOK (nxt :: rest)
+  | [.list [.atom "sendq", _, _]] => false
+  | _ :: rest => sendqOK rest
 
 inductive CaseT where
   | script (c : Case)
   | tcp (n : Nat)
+  | tcpReset (n : Nat)
 
 def caseOf? : Term → Option CaseT
   | .list [.atom "case-tcp", n] => (natLe? 64 n).map .tcp
-  | .list [.atom "case", .list (.atom "streams" :: ss), .list (.atom "steps" :: st)] => do
+  | .list [.atom "case-tcp-reset", n] => (natLe? 64 n).map .tcpReset
+  | .list [.atom "case", .list (.atom "streams" :: ss), .list (.atom "steps" :: stT)] => do
       let ss ← ss.mapM streamOf?
-      let st ← st.mapM stepOf?
+      let st ← stT.mapM stepOf?
       let sids := ss.map (·.sid)
-      if nodupNat sids && stepsOK sids [] st then some (.script ⟨ss, st⟩) else none
+      if nodupNat sids && stepsOK sids [] st && sendqOK stT then some (.script ⟨ss, st⟩) else none
   | _ => none
 
 def queryT : Query → Term
@@ -76,18 +92,20 @@ def queryOf? : Term → Option Query
 
 def snapT (s : Snap) : Term :=
   tag "snap" [
-    tag "roas" (s.roas.map fun r => list [nat r.1, netT r.2.1, nat r.2.2.1, nat r.2.2.2]),
-    tag "sess" (s.sess.map fun x => list [nat x.1, nat x.2.1, nat x.2.2.1, list (x.2.2.2.map queryT)]),
+    tag "roas" (s.roas.map fun r => list [nat r.1, nat r.2.1, netT r.2.2.1, nat r.2.2.2.1, nat r.2.2.2.2]),
+    tag "sess" (s.sess.map fun x =>
+      list [nat x.1, nat x.2.1, nat x.2.2.1, nat x.2.2.2.1, list (x.2.2.2.2.map queryT)]),
     tag "done" (s.done.map nat)]
 
 def snapOf? : Term → Option Snap
   | .list [.atom "snap", .list (.atom "roas" :: rs), .list (.atom "sess" :: ss), .list (.atom "done" :: ds)] => do
       let rs ← rs.mapM fun
-        | .list [c, n, ml, a] => do pure ((← asNat? c), (← netOf? n), (← asNat? ml), (← asNat? a))
+        | .list [sd, c, n, ml, a] => do
+            pure ((← asNat? sd), (← asNat? c), (← netOf? n), (← asNat? ml), (← asNat? a))
         | _ => none
       let ss ← ss.mapM fun
-        | .list [sid, ser, sess, .list qs] => do
-            pure ((← asNat? sid), (← asNat? ser), (← asNat? sess), (← qs.mapM queryOf?))
+        | .list [sid, ser, sess, rx, .list qs] => do
+            pure ((← asNat? sid), (← asNat? ser), (← asNat? sess), (← asNat? rx), (← qs.mapM queryOf?))
         | _ => none
       let ds ← ds.mapM asNat?
       pure ⟨rs, ss, ds⟩
@@ -102,5 +120,6 @@ def outOf? : Term → Option (Out (List Snap))
   | _ => none
 
 def tcpT (n : Nat) : Term := tag "tcp" (List.replicate n (sym "cleared"))
+def tcpResetT (n : Nat) : Term := tag "tcp-reset" (List.replicate n (sym "ok"))
 
 end Rbgp.Rtr.Codec
